@@ -1456,6 +1456,11 @@ func (o *ovsdbClient) handleDisconnectNotification() {
 	o.metrics.numDisconnects.Inc()
 	// wait for client related handlers to shutdown
 	o.handlerShutdown.Wait()
+	// an error this connection has left behind is not for the next one
+	select {
+	case <-o.errorCh:
+	default:
+	}
 	o.rpcMutex.Lock()
 	if o.options.reconnect && !o.shutdown {
 		o.rpcClient = nil
